@@ -151,6 +151,17 @@ func emissionsG(g *Gate, s *Summary, resultIdx int) []Emission {
 	return out
 }
 
+// stringParamIndex: position (receiver included) of the first string parameter
+// of fn; 1 if there is none.
+func stringParamIndex(fn *ssa.Function) int {
+	for i, p := range fn.Params {
+		if b, ok := p.Type().Underlying().(*types.Basic); ok && b.Kind() == types.String {
+			return i
+		}
+	}
+	return 1
+}
+
 // guardedBy checks that every emission of fn is dominated (in the gated
 // sense: reach condition implies) by a true result of pred(elem, query),
 // where query is the expression of parameter queryParam of fn.
